@@ -240,13 +240,36 @@ fn eval_purity(b: &[u8], between: &[Vec<u8>]) -> Vec<(String, String)> {
     }
 }
 
-/// decode `frames` in a fresh process, in this order; returns the Debug text of each
+/// decode `frames` in a fresh process, in this order; returns the Debug text of each (a process
+/// that gives no answer within 30 s is tried once more before that is taken for the answer)
 fn fresh_process_decode(frames: &[&[u8]]) -> Option<Vec<String>> {
+    let first = fresh_process_decode_once(frames)?;
+    if first.iter().any(|t| t.starts_with("<no answer")) {
+        return fresh_process_decode_once(frames);
+    }
+    Some(first)
+}
+
+fn fresh_process_decode_once(frames: &[&[u8]]) -> Option<Vec<String>> {
     use std::io::Write;
     let exe = std::env::current_exe().ok()?;
     let mut child = std::process::Command::new(exe).arg("helper").stdin(std::process::Stdio::piped()).stdout(std::process::Stdio::piped()).stderr(std::process::Stdio::null()).spawn().ok()?;
     let req = json!({"cmd": "debugdump", "frames": frames.iter().map(|b| bits::hex(b)).collect::<Vec<_>>()});
     child.stdin.take()?.write_all(req.to_string().as_bytes()).ok()?;
+    // (a child that does not come back is killed after 30 s; the caller decides what that means)
+    let t0 = std::time::Instant::now();
+    loop {
+        match child.try_wait() {
+            Ok(Some(_)) => break,
+            Ok(None) if t0.elapsed().as_secs() >= 30 => {
+                let _ = child.kill();
+                let _ = child.wait();
+                return Some(vec!["<no answer within 30 s>".to_string(); frames.len()]);
+            }
+            Ok(None) => std::thread::sleep(std::time::Duration::from_millis(5)),
+            Err(_) => return None,
+        }
+    }
     let out = child.wait_with_output().ok()?;
     let v: Value = serde_json::from_slice(&out.stdout).ok()?;
     Some(v["frames"].as_array()?.iter().map(|x| x.as_str().unwrap_or("").to_string()).collect())
